@@ -41,6 +41,11 @@ def is_number(tok: str) -> bool:
         return False
 
 
+def exact_real(x: float) -> z3.ArithRef:
+    f = Fraction(x)
+    return z3.RealVal(f.numerator) if f.denominator == 1 else z3.Q(f.numerator, f.denominator)
+
+
 def num_value(tok: str) -> z3.ArithRef:
     # the decimal numeral's exact value of the *double* it denotes (the library stores doubles)
     f = Fraction(float(tok))
@@ -124,15 +129,22 @@ class Sem:
         return z3.If(x >= 0, x, -x)
 
     def num(self, e, env) -> z3.ArithRef:
+        v = self._num(e, env)
+        return exact_real(v) if isinstance(v, float) else v
+
+    def _num(self, e, env):
+        """z3 term, or a Python float for a closed constant sub-expression.  Arithmetic between
+        two *constants* is done in IEEE doubles, as any implementation storing doubles does;
+        rounding is outside every claim and must not show up as a disagreement."""
         if isinstance(e, str):
             if is_number(e):
-                return num_value(e)
+                return float(e)
             raise RefError(f"bad numeric leaf {e}")
         if not e:
             raise RefError("empty numeric expression")
         h = e[0]
         if h in ARITH:
-            args = [self.num(a, env) for a in e[1:]]
+            args = [self._num(a, env) for a in e[1:]]
             if h == "-" and len(args) == 1:
                 return -args[0]
             if len(args) < 2:
@@ -141,15 +153,23 @@ class Sem:
                 raise RefError(f"arity of {h}")
             acc = args[0]
             for a in args[1:]:
+                if isinstance(acc, float) and isinstance(a, float):
+                    if h == "/" and a == 0.0:
+                        self._defined.append(z3.BoolVal(False))
+                        a = 1.0
+                    acc = {"+": acc + a, "*": acc * a, "-": acc - a, "/": acc / a if h == "/" else 0.0}[h]
+                    continue
+                x = exact_real(acc) if isinstance(acc, float) else acc
+                y = exact_real(a) if isinstance(a, float) else a
                 if h == "+":
-                    acc = acc + a
+                    acc = x + y
                 elif h == "*":
-                    acc = acc * a
+                    acc = x * y
                 elif h == "-":
-                    acc = acc - a
+                    acc = x - y
                 else:
-                    self._defined.append(a != 0)
-                    acc = acc / a
+                    self._defined.append(y != 0)
+                    acc = x / y
             return acc
         if h in self.dom.functions:
             sig = self.dom.functions[h]
